@@ -104,7 +104,7 @@ pub fn c11(tier: Tier) -> i32 {
     let mut graphs = if full { graphs_g2(&label_sets_full(), &vals_full, 2) } else { graphs_g2(&label_sets_quick(), &vals_quick, 1) };
     if !full {
         // a thinned slice of the two-relationship graphs
-        let two: Vec<QGraph> = graphs_g2(&[vec![], vec!["A"]], &[None, Some(CV::Int(1))], 2).into_iter().filter(|g| g.rels.len() == 2).collect();
+        let two: Vec<QGraph> = graphs_g2(&[vec![], vec!["A"]], &[None, Some(CV::Int(1))], 2).into_iter().filter(|g| g.rels.len() == 2).step_by(2).collect();
         graphs.extend(two);
     }
     graphs.extend(graphs_rich());
